@@ -8,7 +8,14 @@
 // tsdb.Store.MeasurementNames / TagKeys / TagValues with a condition from the grammar the
 // InfluxQL statement rewriter produces (_name clauses, _tagKey clauses, tag comparisons incl.
 // regex and ”, AND/OR), all shards or a subset, and an authorizer: open, nil, or a fine-grained
-// query.Authorizer denying by measurement, by tag pair, by a hash of the series, or everything.
+// query.Authorizer denying by measurement, by tag pair, by a set of values of a tag key, by an
+// explicit subset of the dataset's series, by a hash of the series, or everything. Two thirds of
+// the datasets are "dense" (all series inside one or two measurements: several values per tag
+// key, several series per value). Every dataset additionally gets measurement listings built
+// from the data (genScanQuery): a regex tag clause that matches >= 2 live values of one
+// measurement with an authorizer hiding a non-empty proper subset of those series / values, so
+// that value-by-value and series-by-series scans under authorization meet hidden and visible
+// series in every order (classes "mnames:...").
 //
 // Oracle: the model keeps, per series and shard, whether the series is live (has points), dead
 // (never written / emptied by one delete covering everything written), or undetermined (emptied
@@ -79,8 +86,160 @@ func (q *mquery) render() string {
 	return fmt.Sprintf("%s%s cond=[%s] exact=%v shards=%v auth=%+v", q.Front, q.Kind, q.cond().text(), q.Exact, q.Shards, q.Auth)
 }
 
+// genScanQuery draws a measurement listing whose condition has a positive tag clause and whose
+// authorizer is fine-grained: the implementation answers it by scanning, per measurement, the
+// tag values that match the clause and, per value, the series until an authorized one is found.
+// The clause and the authorizer are built from the data (construction, not rejection): when some
+// measurement has live series with two or more values of a tag key, the clause is a regex
+// matching at least two of those values and the authorizer (mostly) hides a non-empty proper
+// subset of exactly those series or of those values, so that hidden and visible series meet
+// inside one scan in every order.
+func genScanQuery(t *rapid.T, b *built) *mquery {
+	q := &mquery{Kind: "measurements", Exact: true}
+	windows, _ := b.windowsWithShard()
+	type cand struct {
+		m, k   string
+		vals   []string // distinct live values, sorted
+		series []string // live series of m carrying k
+	}
+	var cands []cand
+	for _, m := range measurements {
+		for _, k := range []string{"host", "region"} {
+			c := cand{m: m, k: k}
+			for _, sk := range b.d.Series {
+				name, tags := tagsOf(sk)
+				v, ok := tags[k]
+				if name != m || !ok || !b.present(sk, windows, false) {
+					continue
+				}
+				c.series = append(c.series, sk)
+				if !inList(c.vals, v) {
+					c.vals = append(c.vals, v)
+				}
+			}
+			if len(c.vals) >= 2 {
+				sort.Strings(c.vals)
+				cands = append(cands, c)
+			}
+		}
+	}
+	var leaf *cexpr
+	if len(cands) > 0 && rapid.IntRange(0, 4).Draw(t, "scdirected") != 0 {
+		c := cands[rapid.IntRange(0, len(cands)-1).Draw(t, "sccand")]
+		var res []string
+		for _, re := range positiveTagRegexes {
+			n := 0
+			for _, v := range c.vals {
+				if matchLeaf("=~", re, v) {
+					n++
+				}
+			}
+			if n >= 2 {
+				res = append(res, re)
+			}
+		}
+		leaf = leafOf(c.k, "=~", rapid.SampledFrom(res).Draw(t, "scre")) // "." always qualifies
+		switch rapid.IntRange(0, 9).Draw(t, "scauth") {
+		case 0, 1, 2, 3, 4:
+			hid := rapid.SliceOfNDistinct(rapid.SampledFrom(c.series), 1, len(c.series)-1, rapid.ID[string]).Draw(t, "schidden")
+			sort.Strings(hid)
+			q.Auth = authSpec{Mode: "deny-series", Hidden: hid}
+		case 5, 6:
+			vs := rapid.SliceOfNDistinct(rapid.SampledFrom(c.vals), 1, len(c.vals)-1, rapid.ID[string]).Draw(t, "scvs")
+			sort.Strings(vs)
+			q.Auth = authSpec{Mode: "deny-values", K: c.k, Vs: vs}
+		default:
+			q.Auth = genAuthFrom(t, b.d.Series, 4)
+		}
+	} else {
+		leaf = genTagLeaf(t, "sct", true)
+		q.Auth = genAuthFrom(t, b.d.Series, 4)
+	}
+	switch rapid.IntRange(0, 5).Draw(t, "sc") {
+	case 0, 1, 2:
+		q.MCond = leaf
+	case 3:
+		kids := []*cexpr{leaf, genTagLeaf(t, "scb", true)}
+		if rapid.Bool().Draw(t, "scswap") {
+			kids[0], kids[1] = kids[1], kids[0]
+		}
+		q.MCond = &cexpr{Kind: "or", Kids: kids}
+	default:
+		q.MCond = &cexpr{Kind: "and", Kids: []*cexpr{paren(genNameExpr(t, "scn")), paren(leaf)}}
+	}
+	return q
+}
+
+// positiveTagLeaves lists the tag clauses with = or =~ of a condition.
+func (c *cexpr) positiveTagLeaves() []*cexpr {
+	if c == nil {
+		return nil
+	}
+	if c.Kind == "leaf" {
+		if c.Key != "_name" && c.Key != "_tagKey" && (c.Op == "=" || c.Op == "=~") {
+			return []*cexpr{c}
+		}
+		return nil
+	}
+	var out []*cexpr
+	for _, k := range c.Kids {
+		out = append(out, k.positiveTagLeaves()...)
+	}
+	return out
+}
+
+// valueScanShape describes what a value-by-value scan of a measurement listing meets: multi =
+// some positive tag clause matches two or more values that live series of one measurement carry;
+// firstHidden = additionally the authorizer hides every live series carrying the first matching
+// value (in sorted value order) while a live series carrying a later matching value is visible,
+// so the measurement has to be listed because of a value that is not the first match.
+func (b *built) valueScanShape(q *mquery, windows []int) (multi, firstHidden bool) {
+	for _, l := range q.MCond.positiveTagLeaves() {
+		// measurement -> value -> [visible, hidden] live series
+		per := map[string]map[string]*[2]int{}
+		for _, sk := range b.d.Series {
+			name, tags := tagsOf(sk)
+			v, ok := tags[l.Key]
+			if !ok || !matchLeaf(l.Op, l.Lit, v) || !b.present(sk, windows, false) {
+				continue
+			}
+			if per[name] == nil {
+				per[name] = map[string]*[2]int{}
+			}
+			if per[name][v] == nil {
+				per[name][v] = &[2]int{}
+			}
+			if q.Auth.allowed(name, tags) {
+				per[name][v][0]++
+			} else {
+				per[name][v][1]++
+			}
+		}
+		for _, vals := range per {
+			if len(vals) < 2 {
+				continue
+			}
+			multi = true
+			var vs []string
+			for v := range vals {
+				vs = append(vs, v)
+			}
+			sort.Strings(vs)
+			if vals[vs[0]][0] > 0 {
+				continue
+			}
+			for _, v := range vs[1:] {
+				if vals[v][0] > 0 {
+					firstHidden = true
+				}
+			}
+		}
+	}
+	return multi, firstHidden
+}
+
 func genQuery(t *rapid.T, b *built) *mquery {
-	q := &mquery{Auth: genAuth(t)}
+	q := &mquery{Auth: genAuth(t, b.d.Series)}
 	q.Kind = rapid.SampledFrom([]string{"measurements", "tagkeys", "tagkeys", "tagvalues", "tagvalues"}).Draw(t, "qkind")
 	if q.Kind == "measurements" {
 		q.MCond, q.Exact = genMeasurementCond(t)
@@ -472,6 +631,17 @@ func (b *built) checkQuery(t *rapid.T, test string, q *mquery) {
 	if !q.Exact {
 		rec.Class("cond:ambiguous-meaning(upper-bound-only)")
 	}
+	if q.Kind == "measurements" {
+		if multi, firstHidden := b.valueScanShape(q, windows); multi {
+			rec.Class("mnames:tag-clause-matches->=2-live-values-of-a-measurement")
+			if q.Auth.fine() {
+				rec.Class("mnames:tag-clause-matches->=2-live-values-of-a-measurement+fine-authorizer")
+			}
+			if firstHidden && q.Exact {
+				rec.Class("mnames:first-matching-value-has-only-hidden-series,later-value-visible(exact)")
+			}
+		}
+	}
 	if q.Shards != nil {
 		rec.Class("shards:subset")
 	} else {
@@ -600,6 +770,12 @@ func TestPropMetaQueries(t *testing.T) {
 		}
 		for ; nq < 8; nq++ {
 			b.checkQuery(t, "TestPropMetaQueries", genQuery(t, b))
+		}
+		// plus two measurement listings that make the index scan tag values and series under a
+		// fine-grained authorizer
+		for i := 0; i < 2; i++ {
+			b.checkQuery(t, "TestPropMetaQueries", genScanQuery(t, b))
+			rec.Class("query:measurements-tag-clause+fine-authorizer(targeted)")
 		}
 	})
 }
